@@ -24,6 +24,7 @@ import (
 	tokenkeeper "mods.irisnet.org/modules/token/keeper"
 	tokentypes "mods.irisnet.org/modules/token/types"
 	v1 "mods.irisnet.org/modules/token/types/v1"
+	"mods.irisnet.org/modules/token/types/v1beta1"
 
 	"verifharness/hx"
 )
@@ -69,6 +70,7 @@ func New(env *hx.Env, evm *EVM, mix string) *R {
 		r.ethNames[extEth(i)] = fmt.Sprintf("E%d", i)
 	}
 	tm, _ := r.addr("TM")
+	evm.Owner = common.BytesToAddress(tm.Bytes())
 	for n := 1; n <= 64; n++ {
 		c := crypto.CreateAddress(common.BytesToAddress(tm.Bytes()), uint64(n-1))
 		r.knames[c] = fmt.Sprintf("K%d", n)
@@ -175,6 +177,53 @@ func (r *R) kname(hexAddr string) string {
 		return s
 	}
 	return hexAddr
+}
+
+// implAddr maps the symbolic name of a new beacon implementation to the hex string put into the
+// message: I<n> (implementation contracts: code), K<n> (contracts of the module account: code once
+// created), B (the beacon), Z (the zero address), the Ethereum universe (no code); anything else is
+// sent as a string that is not a hex address.
+func (r *R) implAddr(sym string) string {
+	switch {
+	case sym == "B":
+		return BeaconAddr.Hex()
+	case sym == "Z":
+		return common.Address{}.Hex()
+	case strings.HasPrefix(sym, "I") && allDigits(sym[1:]):
+		if i, err := strconv.Atoi(sym[1:]); err == nil && i < nImpl {
+			return ImplAddr(i).Hex()
+		}
+		hx.Fail("implementation %q out of range", sym)
+	}
+	if c, ok := r.kaddrs[sym]; ok {
+		return c.Hex()
+	}
+	if strings.HasPrefix(sym, "K") && allDigits(sym[1:]) {
+		hx.Fail("contract %q out of range", sym)
+	}
+	if e, ok := r.eth(sym); ok {
+		return e.Hex()
+	}
+	return "zz-not-hex-" + sym
+}
+
+// implName renders the beacon's implementation symbolically.
+func (r *R) implName(a common.Address) string {
+	if a == BeaconAddr {
+		return "B"
+	}
+	if a == (common.Address{}) {
+		return "Z"
+	}
+	for n := 0; n < nImpl; n++ {
+		if a == ImplAddr(n) {
+			return fmt.Sprintf("I%d", n)
+		}
+	}
+	if s, ok := r.knames[a]; ok {
+		return s
+	}
+	return r.symEth(a)
 }
 
 func us(s string) string {
@@ -294,8 +343,9 @@ func (r *R) state(ctx sdk.Context) string {
 		sort.Strings(l)
 	}
 	j := func(l []string) string { return strings.Join(l, ",") }
-	return fmt.Sprintf("toks=%s mu=%s own=%s ctr=%s burned=%s params=%s bal=%s sup=%s nonce=%d evm=%s fault=%s",
-		j(toks), j(mu), j(own), j(ctr), j(burned), r.paramsStr(k.GetParams(ctx)), j(bal), j(sup), nonce, j(evm), r.evm.Fault)
+	return fmt.Sprintf("toks=%s mu=%s own=%s ctr=%s burned=%s params=%s bal=%s sup=%s nonce=%d evm=%s fault=%s impl=%s",
+		j(toks), j(mu), j(own), j(ctr), j(burned), r.paramsStr(k.GetParams(ctx)), j(bal), j(sup), nonce, j(evm), r.evm.Fault,
+		r.implName(r.evm.Impl))
 }
 
 // ---------------------------------------------------------------- reset
@@ -406,6 +456,24 @@ func (r *R) ResetLine(g *hx.Rng) string {
 			bals = append(bals, fmt.Sprintf("%s/stake:%s", n, v))
 		}
 	}
+	// IBC vouchers (denominations the token module did not create) held by users: after DeployERC20
+	// for that denom the legacy service can burn them by symbol, the v1 service cannot (its
+	// ValidateBasic rejects the min unit)
+	if g.Chance(1, 3) {
+		d := fmt.Sprintf("ibc/DEAD%d", g.Intn(3))
+		for i, n := 0, 1+g.Intn(2); i < n; i++ {
+			a := acc(g)
+			dup := false
+			for _, b := range bals {
+				if strings.HasPrefix(b, a+"/"+d+":") {
+					dup = true
+				}
+			}
+			if !dup {
+				bals = append(bals, fmt.Sprintf("%s/%s:%s", a, d, new(big.Int).Add(g.BigRaw(40+g.Intn(40)), big.NewInt(1))))
+			}
+		}
+	}
 	var reg []string
 	seen := map[string]bool{}
 	for i, n := 0, 2+g.Intn(4); i < n; i++ {
@@ -453,7 +521,7 @@ func (r *R) Reset(ctx sdk.Context, line string) (sdk.Context, string) {
 			continue
 		}
 		kv := strings.Split(e, ":")
-		ad := strings.Split(kv[0], "/")
+		ad := strings.SplitN(kv[0], "/", 2) // account/denom; the denom may itself contain '/' (ibc/…)
 		addr, ok := r.addr(ad[0])
 		if !ok {
 			hx.Fail("reset: bad account %q", ad[0])
@@ -714,6 +782,23 @@ func (r *R) Exec(ctx sdk.Context, line string) (sdk.Context, string) {
 		}
 	case "update_params":
 		deliver(&v1.MsgUpdateParams{Authority: r.bech(a["authority"]), Params: r.parseParams(a)})
+	// the legacy (v1beta1) Msg service, through the same router
+	case "legacy_issue":
+		deliver(&v1beta1.MsgIssueToken{Symbol: hx.Undash(a["symbol"]), Name: hx.Undash(a["name"]), Scale: uint32(u64(a["scale"])),
+			MinUnit: hx.Undash(a["minunit"]), InitialSupply: u64(a["init"]), MaxSupply: u64(a["max"]),
+			Mintable: a["mintable"] == "1", Owner: r.bech(a["owner"])})
+	case "legacy_edit":
+		deliver(&v1beta1.MsgEditToken{Symbol: hx.Undash(a["symbol"]), Name: hx.Undash(a["name"]), MaxSupply: u64(a["max"]),
+			Mintable: tokentypes.Bool(hx.Undash(a["mintable"])), Owner: r.bech(a["owner"])})
+	case "legacy_mint":
+		deliver(&v1beta1.MsgMintToken{Symbol: hx.Undash(a["symbol"]), Amount: u64(a["amount"]), To: r.bech(hx.Undash(a["to"])),
+			Owner: r.bech(a["owner"])})
+	case "legacy_burn":
+		deliver(&v1beta1.MsgBurnToken{Symbol: hx.Undash(a["symbol"]), Amount: u64(a["amount"]), Sender: r.bech(a["sender"])})
+	case "legacy_transfer_owner":
+		deliver(&v1beta1.MsgTransferTokenOwner{SrcOwner: r.bech(a["src"]), DstOwner: r.bech(a["dst"]), Symbol: hx.Undash(a["symbol"])})
+	case "upgrade_erc20":
+		deliver(&v1.MsgUpgradeERC20{Authority: r.bech(a["authority"]), Implementation: r.implAddr(a["impl"])})
 	default:
 		hx.Fail("unknown op %q", line)
 	}
